@@ -49,7 +49,7 @@ IDENTITY_METHODS = {'iter', 'iter_mut', 'into_iter', 'as_slice', 'to_vec', 'clon
 
 class Vocab:
     def __init__(self, name, carrier_type_pred, prims, field_alias=None, count_alias=None, root_params=None, passthrough=(), site_domains=None,
-                 resolve_trait=None):
+                 resolve_trait=None, atomic=None):
         self.name = name
         self.carrier_type_pred = carrier_type_pred      # (type string, fn, bound) -> bool
         self.prims = prims                              # callee -> (kind, item_fn(node))
@@ -59,6 +59,7 @@ class Vocab:
         self.passthrough = set(passthrough)             # callees returning (the shape of) their first collection argument
         self.site_domains = site_domains or {}          # (fn nid, item type, ordinal) -> domain, for loops shape inference cannot name
         self.resolve_trait = resolve_trait or (lambda decl, node: None)
+        self.atomic = atomic or {}                      # callee nid -> name: compared as one operation (its own duality is checked elsewhere)
 
 
 class Extractor:
@@ -107,11 +108,20 @@ class Extractor:
                 a = self.v.root_params.get((nid, b['n']))
                 if a is not None:
                     env[b['i']] = a
+        self.param_fallback(f, env)
         self.stack = [nid]
         st = _Frame(self, f, env)
         t, a = st.ex(f['body'])
         self.stack = []
         return strip_tail(t)
+
+    def param_fallback(self, f, env):
+        """slice / Vec parameters whose shape is unknown get a domain named after the parameter (documented fallback)"""
+        for p in f['params']:
+            if p.get('k') == 'bind' and env.get(p['i']) is None:
+                t = strip_ref(p.get('t') or '')
+                if t.startswith(('[', 'alloc::vec::Vec')):
+                    env[p['i']] = ('coll', 'param:' + p['n'], None)
 
     def inline(self, nid, argvals):
         if nid in self.stack:
@@ -124,6 +134,7 @@ class Extractor:
         env = {}
         for p, a in zip(f['params'], argvals):
             bind_pat(env, p, a)
+        self.param_fallback(f, env)
         self.stack.append(nid)
         try:
             st = _Frame(self, f, env)
@@ -481,7 +492,15 @@ class _Frame:
                 cnt = vals[-1] if vals else None
                 dom = cnt[1] if (cnt is not None and cnt[0] == 'len') else ('range', self.prov_key(args[-1]) if args else '?')
                 return seq(pre + [('loop', dom, ('op', 'read', item_fn(n), loc))]), ('coll', dom, None)
-            return seq(pre + [('op', kind, item_fn(n), loc)]), None
+            it = item_fn(n)
+            val = next((v for v in vals if v is not None and v[0] == 'len'), None)
+            if kind in ('read',) and strip_ref(it) in ('u8', 'u16', 'u32', 'u64', 'usize'):
+                # an integer read from the stream: a fresh symbolic length
+                rv_ = ('len', ('read', loc))
+                return seq(pre + [('op', kind, it, loc, rv_)]), rv_
+            if val is not None and kind in ('write', 'common'):
+                return seq(pre + [('op', kind, it, loc, val)]), None
+            return seq(pre + [('op', kind, it, loc)]), None
         # ---- evaluate receiver / non-closure arguments
         pre, vals = [], []
         for a in allargs:
@@ -538,8 +557,8 @@ class _Frame:
             if is_eps(body):
                 return seq(pre), res
             return seq(pre + [('loop', self.loop_dom(rv, n, recv), strip_breaks(body))]), res
-        # ---- workspace callee that receives the carrier: inline
-        if any(x.mentions_carrier(a, f) for a in allargs):
+        # ---- workspace callee that receives (or returns) the carrier: inline
+        if any(x.mentions_carrier(a, f) for a in allargs) or self.returns_carrier(n):
             tgt = None
             if x.w.fn(c, required=False) is not None:
                 tgt = c
@@ -547,6 +566,9 @@ class _Frame:
                 tgt = x.v.resolve_trait(cd, n)
                 if tgt is None and cd in x.impl_index and len(x.impl_index[cd]) == 1:
                     tgt = x.impl_index[cd][0]
+            if tgt is not None and tgt in x.v.atomic:
+                x.ops_seen += 1
+                return seq(pre + [('op', 'sub', x.v.atomic[tgt], f"{f['file']}:{n.get('l')}")]), None
             if tgt is not None:
                 t, v = x.inline(tgt, vals)
                 return seq(pre + [t]), v
@@ -606,6 +628,26 @@ class _Frame:
                 res = vals[0]
             elif c in ('alloc::vec::Vec::new', 'alloc::vec::Vec::with_capacity'):
                 res = ('coll', ('const', 0), None)
+        if res is None and c.startswith(('midnight_', '<midnight_')) and recv is not None and not args:
+            # trivial getter `fn x(&self) -> &T { &self.x }`: read the field instead
+            g = x.w.fn(c, required=False)
+            if g is not None:
+                b = peel(g['body'])
+                while b.get('k') == 'block' and not b.get('ss') and 'e' in b:
+                    b = peel(b['e'])
+                if b.get('k') == 'mcall' and b.get('m') in ('len', 'clone', 'as_slice', 'iter') and peel(b['recv']).get('k') == 'field':
+                    inner = peel(b['recv'])
+                    fake = dict(inner)
+                    fake['e'] = {'k': 'lit', 'v': 'x'}
+                    _, fv = self.ex_field(fake)
+                    if b.get('m') == 'len':
+                        res = ('len', dom_of(fv)) if dom_of(fv) is not None else None
+                    else:
+                        res = fv
+                elif b.get('k') == 'field' and peel(b['e']).get('k') == 'local' and peel(b['e'])['n'] == 'self':
+                    fake = dict(b)
+                    fake['e'] = {'k': 'lit', 'v': 'x'}
+                    _, res = self.ex_field(fake)
         if res is None and (c.startswith(('midnight_', '<midnight_'))):
             # effect-free workspace call returning a collection / iterator / count: name the domain after the callee
             rty = strip_ref(n.get('t') or '')
@@ -614,6 +656,17 @@ class _Frame:
             elif rty in ('usize', 'u32', 'u64'):
                 res = ('len', ('call', short(c)))
         return seq(pre), res
+
+    def returns_carrier(self, n):
+        t = n.get('t') or ''
+        if not t or not (callee(n) or '').startswith(('midnight_', '<midnight_')):
+            return False
+        # any generic argument / tuple component of the result type that is a carrier type
+        for part in re.split(r'[<>(),]\s*', t):
+            part = part.strip()
+            if part and self.x.is_carrier_ty(part, self.f):
+                return True
+        return False
 
     # ---------------------------------------------------------------- keys and domains
     def loop_dom(self, hv, node, it_expr):
@@ -642,6 +695,10 @@ class _Frame:
             a = self.env.get(e['i'])
             if e['i'] in self.while_iters:
                 return 'ITER'
+            if a is not None and a[0] == 'const':
+                return f'i:{a[1]}'
+            if a is not None and a[0] == 'len' and isinstance(a[1], tuple) and a[1][0] == 'const':
+                return f'i:{a[1][1]}'
             if a is not None and a[0] in ('item', 'len', 'index'):
                 return f'{a[0]}<{fmt_dom(a[1])}>'
             if a is not None and a[0] == 'coll':
